@@ -7,7 +7,7 @@
 From Coq Require Import String.
 From Coq Require Import List NArith ZArith Bool.
 From SK Require Import lib.LGraph lib.C01_GraphLemmas model.C01_Model model.C02_Model model.C01_Opts model.C01_String model.C01_Renum model.C01_Attrs model.C01_CleanWc model.C01_Rsmi model.C01_Nbrs model.C01_Rewrite model.C01_Conv model.C01_G2M model.C01_DecRaw model.C01_HBal model.C01_M2GIdx model.C01_Prem
-  proof.C01_Proof proof.C01_OptsProof proof.C01_StringProof proof.C01_StringHyd proof.C01_StringPipe proof.C01_StringEH proof.C01_StringRenum proof.C01_StringHydExt proof.C01_RenumCentre proof.C01_RenumWrite proof.C01_StringEHwf proof.C01_AttrsProof proof.C01_StringPipeH proof.C01_CleanWcProof proof.C01_RsmiProof proof.C01_NbrsProof proof.C01_RewriteProof proof.C01_ConvProof proof.C01_G2MProof proof.C01_WriteExt proof.C01_RewriteCheck proof.C01_DecRawProof proof.C01_HBalProof proof.C01_HBalString proof.C01_HBalEH proof.C01_M2GIndex proof.C01_ReadWrite proof.C01_HBalW proof.C01_PremProof proof.C01_Capstone proof.C01_ReverseWrite.
+  proof.C01_Proof proof.C01_OptsProof proof.C01_StringProof proof.C01_StringHyd proof.C01_StringPipe proof.C01_StringEH proof.C01_StringRenum proof.C01_StringHydExt proof.C01_RenumCentre proof.C01_RenumWrite proof.C01_StringEHwf proof.C01_AttrsProof proof.C01_StringPipeH proof.C01_CleanWcProof proof.C01_RsmiProof proof.C01_NbrsProof proof.C01_RewriteProof proof.C01_ConvProof proof.C01_G2MProof proof.C01_WriteExt proof.C01_RewriteCheck proof.C01_DecRawProof proof.C01_HBalProof proof.C01_HBalString proof.C01_HBalEH proof.C01_M2GIndex proof.C01_ReadWrite proof.C01_HBalW proof.C01_PremProof proof.C01_Capstone proof.C01_ReverseWrite proof.C01_ExtOpts.
 Import ListNotations.
 Local Open Scope Z_scope.
 
@@ -824,3 +824,10 @@ Theorem C01_reverse_written : forall G H : mgraph, wf G -> wf H -> same_nodes G 
   geq (snd (its_to_graphs (its_construct H G))) (fst (its_to_graphs (its_construct G H))).
 Proof. exact reverse_written. Qed.
 Print Assumptions C01_reverse_written.
+
+(** 54. theorem 36 for EVERY option value of ITSConstruction.construct (ignore_aromaticity, balance_its, attributes_defaults)
+        and both store modes: the ITS depends only on the label and bond maps of the two graphs *)
+Theorem C01_extensional_opts : forall (o : copts) (G H G' H' : mgraph), wf G -> wf H -> wf G' -> wf H' -> geq G' G -> geq H' H ->
+  geq (its_construct_o o G' H') (its_construct_o o G H) /\ geq (its_construct_S o G' H') (its_construct_S o G H).
+Proof. exact construct_ext_opts. Qed.
+Print Assumptions C01_extensional_opts.
